@@ -1,10 +1,10 @@
 package ag
 
 import (
-	"os"
 	"fmt"
 	"math/big"
 	"math/rand"
+	"os"
 	"strings"
 	"time"
 
